@@ -11,3 +11,5 @@ import PvModel.Props.C17
 #print axioms Pv.C17_unify_exact
 #print axioms Pv.C17_program_complete
 #print axioms Pv.C17_label_partition
+#print axioms Pv.C17_distinctfd_no_solution_lost
+#print axioms Pv.C17_distinctfd_fail_means_unsat
